@@ -146,7 +146,7 @@ func datasetEntries(raw []string) []string {
 	return arr
 }
 
-func isBinaryRx(arg string) bool { return strings.Contains(arg, `\xff`) }
+func isBinaryRx(arg string) bool { return strings.Contains(arg, `\xf`) }
 
 // compile renders a configuration as SecLang text and lists the memoizer calls it makes, in call
 // order.  idBase keeps rule ids of successive configurations on one WAF apart.
@@ -173,7 +173,8 @@ func (c Config) compile(idBase int) (string, []Req) {
 	}
 	rxReq := func(arg string) Req {
 		if isBinaryRx(arg) {
-			return Req{Kind: "binrx", A: arg}
+			// newRX hands the flagged pattern to newBinaryRX (options.Arguments = data, fix c8f3cc1)
+			return Req{Kind: "binrx", A: rxPrefix() + arg}
 		}
 		return Req{Kind: "rx", PF: c.PreFilter, A: arg}
 	}
@@ -501,7 +502,7 @@ func buildNoMemoize(outDir string) (string, error) {
 // ---------------------------------------------------------------------------------------------
 
 // the shared vocabulary: every string is used in as many roles as its syntax allows
-var vocab = []string{"foo", "bar", "foo bar", "fo+", "ba[rz]", "(", "foo.json", "ds", "FOO", "list.txt", "/foo/{id}", `fo\xffo`, "[0-9.-]+"}
+var vocab = []string{"foo", "bar", "foo bar", "fo+", "ba[rz]", "(", "foo.json", "ds", "FOO", "list.txt", "/foo/{id}", `fo\xffo`, "[0-9.-]+", `b\xfear`}
 
 func simpleTok(s string) bool { // usable inside ARGS:/../, ctl keys, file and data-set names
 	return !strings.ContainsAny(s, " |/\"',;`") && s != ""
